@@ -38,7 +38,7 @@ ASSUMPTIONS = [
     "the coretemp platform glob is modelled as found (its entries never yield a reading); layouts with coretemp files that are not also under /sys/class/hwmon do not exist on real kernels",
 ]
 MANIFEST = {
-    "level_text": "Machine-checked Lean 4 proofs over an executable model of the Linux sensors/battery/cpu_freq/cpu_count/cpu_stats/boot_time code for EVERY abstract tree: the hwmon walker equals the declarative per-sensor view and never fails (C19_missing_reading_skipped_never_fails, C19_temp_scaling), thermal zones influence the result exactly when hwmon lists nothing (C19_fallback_iff, with C19_zones_ignored_when_hwmon_lists / C19_fallback_to_zones), zone thresholds are independent of the set-iteration order for every permutation (C19_zone_thresholds, with a proved counterexample for the code as found: conversions inside the loop), Fahrenheit and back-fill laws (C19_fahrenheit, C19_backfill, with a proved counterexample for the truthiness test), battery percent/plugged/secsleft/first-battery/None rules (C19_battery_refines and corollaries; clause by clause in C19_plugged_rules, C19_alternatives_rules, C19_secsleft_rules, end to end in C19_battery_kernel), cpu_freq kHz->MHz scaling, column means and None for no CPU for both module variants, cpu_count(logical=True) over its three sources (C19_cpu_count_logical_refines) and cpu_stats/boot_time as round trips through kernel-format renderers of /proc/cpuinfo and /proc/stat (text level), cpu_count(logical=False) = number of distinct sibling lists of the topology files under either file name, for any assignment of any number of CPUs to cores printed in the kernel's cpulist format (C19_cpu_count_cores_topology, C19_cpu_count_cores_kernel; the format is proved injective), else the package sum of a kernel-format /proc/cpuinfo, None when 0 (C19_cpu_count_cores_cpuinfo, C19_cpu_count_cores_none, C19_cpu_count_cores_refines). Tied to the code by translator facts (caught exception classes, placement of the /1000 conversions relative to the trip-point loop, constants, file-name alternatives and their order, name filter, enum values) feeding the proof obligation cfg_good, and by a differential run of the real front ends over redirected trees whose text files are the bytes printed by the Lean renderers.",
+    "level_text": "Machine-checked Lean 4 proofs over an executable model of the Linux sensors/battery/cpu_freq/cpu_count/cpu_stats/boot_time code for EVERY abstract tree: the hwmon walker equals the declarative per-sensor view and never fails (C19_missing_reading_skipped_never_fails, C19_temp_scaling), thermal zones influence the result exactly when hwmon lists nothing (C19_fallback_iff, with C19_zones_ignored_when_hwmon_lists / C19_fallback_to_zones), zone thresholds are independent of the set-iteration order for every permutation (C19_zone_thresholds, with a proved counterexample for the code as found: conversions inside the loop), Fahrenheit and back-fill laws (C19_fahrenheit, C19_backfill, with a proved counterexample for the truthiness test), battery percent/plugged/secsleft/first-battery/None rules (C19_battery_refines and corollaries; clause by clause in C19_plugged_rules, C19_alternatives_rules, C19_secsleft_rules, end to end in C19_battery_kernel), cpu_freq kHz->MHz scaling, column means and None for no CPU for both module variants, cpu_count(logical=True) over its three sources (C19_cpu_count_logical_refines) and cpu_stats/boot_time as round trips through kernel-format renderers of /proc/cpuinfo and /proc/stat (text level), thermal-zone and hwmon directories at FILE-NAME level: every trip point the kernel names trip_point_<n>_{type,temp,hyst} (any number of digits) is in the set the walker iterates, the set holds nothing else, and for every iteration order the zone row is the row of the kernel's description (C19_zone_all_trip_points, C19_zone_trip_set, C19_trip_index, C19_zone_dir_refines, C19_zone_dir_critical; C19_hwmon_all_sensor_indices for temp<n>_/fan<n>_ files), battery selection = lexicographic minimum among the names that start with BAT or contain battery in any case, existence and uniqueness (C19_battery_name_rule, C19_battery_selection, C19_first_battery_exists_unique), blanks/newlines around a number or text are not seen (C19_whitespace_insensitive, C19_kernel_value_padded, C19_battery_reads_whitespace, C19_fans_whitespace), sign of seconds-left for negative power figures as a characterisation (C19_secsleft_sign, C19_secsleft_negative_collides), cpu_count(logical=False) = number of distinct sibling lists of the topology files under either file name, for any assignment of any number of CPUs to cores printed in the kernel's cpulist format (C19_cpu_count_cores_topology, C19_cpu_count_cores_kernel; the format is proved injective), else the package sum of a kernel-format /proc/cpuinfo, None when 0 (C19_cpu_count_cores_cpuinfo, C19_cpu_count_cores_none, C19_cpu_count_cores_refines). Tied to the code by translator facts (caught exception classes, placement of the /1000 conversions relative to the trip-point loop, constants, file-name alternatives and their order, name filter, enum values, the trip-point glob / split-join slice / file suffixes / type constants) feeding the proof obligation cfg_good, and by a differential run of the real front ends over redirected trees whose text files are the bytes printed by the Lean renderers.",
     "level_note": "Trusted: Lean kernel + {propext, Classical.choice, Quot.sound}; the translator; the redirect layer and correspondence harness; Python number syntax restricted to the kernel's notation; doubles vs exact rationals within the stated tolerances.",
     "technique": "Lean 4 proofs (case analysis, list induction, permutation invariance, render->parse round trips of /proc/stat, /proc/cpuinfo and the cpulist format) over a model on abstract sysfs trees + translator-fed proof obligation + differential correspondence through a path-redirect layer with explicit set-order control and exhaustive small sub-domains",
     "design_ref": "DESIGN.md §5 C19",
@@ -425,7 +425,7 @@ def gen_battery(rng, fam):
         names += rng.sample(OTHER_NAMES, rng.randrange(0, 4))
     rng.shuffle(names)
     for n in names:
-        s = gen_supply(rng, n, fam if fam not in ("names", "bat_padded", "negative") else "normal")
+        s = gen_supply(rng, n, fam if fam not in ("names", "bat_padded", "negative", "tte") else "normal")
         if n in (b"AC0", b"AC", b"ADP1"):
             s["online"] = rng.choice([good_int(0), good_int(1), good_int(1), None, False, hx(b"yes\n"), good_int(2)])
         if fam == "names":
@@ -446,6 +446,14 @@ def gen_battery(rng, fam):
                 s["time_to_empty_now"] = good_int(-rng.randrange(1, 500))
             if rng.random() < 0.2:
                 s[rng.choice(["energy_full", "charge_full"])] = good_int(-rng.randrange(1, 60000000))
+        if fam == "tte":
+            # only `time_to_empty_now` can answer: boundary values of minutes (0 is a valid answer: 0 seconds, not UNKNOWN)
+            for k in ("energy_now", "charge_now") if rng.random() < 0.5 else ("power_now", "current_now"):
+                s.pop(k, None)
+            s["time_to_empty_now"] = good_int(rng.choice([0, 0, 1, -1, -5, 2, 90, 600]))
+            s["capacity"] = good_int(rng.randrange(0, 101))
+            s["status"] = rng.choice([hx(b"Discharging\n"), hx(b"Unknown\n"), None])
+            s.pop("online", None)
         if fam == "bat_padded":
             s = {k: (pad_file(rng, v) if k != "name" else v) for k, v in s.items()}
         case["supplies"].append(s)
@@ -898,6 +906,8 @@ def generic_features(case, impl):
         f.add("plugged_%s" % v["plugged"])
         if v["secsleft"] < -2:
             f.add("secs_negative")
+        if v["secsleft"] == 0:
+            f.add("secs_zero")
     if fn == "battery":
         names = [bytes.fromhex(s["name"]) for s in case.get("supplies", [])]
         bats = [n for n in names if n.startswith(b"BAT") or b"battery" in n.lower()]
@@ -1122,7 +1132,7 @@ def correspond(ctx, res):
                     "clause feature (missing/unreadable/non-numeric file, fallback, nesting, exception, None "
                     "result, UNKNOWN/UNLIMITED, variant, …); distinct = distinct trees")
         cases = list(CORPUS)
-        n = ctx.n(1200, 50000)
+        n = ctx.n(1000, 40000)
         cases += [gen_case(ctx.rng, i) for i in range(n)]
         # dedicated batches for the text-level / topology parts (cheap cases, otherwise 1-2 slots in 20)
         for k in range(ctx.n(180, 6000)):
@@ -1135,7 +1145,7 @@ def correspond(ctx, res):
         for k in range(ctx.n(90, 3000)):
             cases.append(gen_temps(ctx.rng, ("many_trips", "wide_index", "zone_extra", "big_index", "padded")[k % 5]))
         for k in range(ctx.n(120, 4000)):
-            cases.append(gen_battery(ctx.rng, ("names", "negative", "bat_padded")[k % 3]))
+            cases.append(gen_battery(ctx.rng, ("names", "negative", "bat_padded", "tte")[k % 4]))
         for k in range(ctx.n(40, 1000)):
             cases.append(gen_fans(ctx.rng, ("fan_padded", "fan_big_index")[k % 2]))
         quick = ctx.tier == "quick"
@@ -1172,6 +1182,8 @@ def search(ctx, res, broken):
         directed += list(CORPUS)
         directed += [gen_temps(ctx.rng, f) for f in ("zero_thr", "multi_trip", "missing", "nonnumeric_thr") for _ in range(50)]
         directed += list(exhaustive_topology(3))
+        directed += [gen_battery(ctx.rng, f) for f in ("tte", "negative", "names") for _ in range(40)]
+        directed += [gen_temps(ctx.rng, f) for f in ("many_trips", "wide_index") for _ in range(20)]
         directed += [gen_cpucount(ctx.rng, f) for f in ("kernel_topology", "packages", "topology") for _ in range(40)]
         directed += [gen_case(ctx.rng, i) for i in range(ctx.n(300, 3000))]
         for c, io, mo, sp in runner.run(directed):
